@@ -124,7 +124,13 @@ var shapes = []func(ls []*zerolog.Logger, t, i int){
 	func(ls []*zerolog.Logger, t, i int) {
 		ls[1].Info().Int("t", t).Int("i", i).Str("pad", strings.Repeat("Q", 70000)).Msg("above 64K")
 	},
+	// Panic(): written like any other event, then the call panics with the message (the thread recovers and counts)
+	func(ls []*zerolog.Logger, t, i int) { ls[1].Panic().Int("t", t).Int("i", i).Msg(panicMsg) },
 }
+
+const panicMsg = "panics after it was written"
+
+const panicShape = 7
 
 type recWriter struct {
 	errAt   int
@@ -208,11 +214,19 @@ func runLog(c *Case, ch vsched.Chooser) (string, *vsched.Sched) {
 	// expected: each event alone, outside the scheduler
 	solo := []*recWriter{{}, {}}
 	sl := mkLoggers(solo, false, c.Dest)
+	wantPanics := 0
 	for t := 0; t < c.T; t++ {
 		for i := 0; i < c.K; i++ {
-			shapes[shapeOf(t, i)](sl, t, i)
+			if shapeOf(t, i) == panicShape {
+				wantPanics++
+			}
+			func() {
+				defer func() { recover() }()
+				shapes[shapeOf(t, i)](sl, t, i)
+			}()
 		}
 	}
+	gotPanics := 0
 	ws := []*recWriter{{yields: true, panicAt: c.PanicAt, errAt: c.ErrAt}, {yields: true}}
 	oldEH := zerolog.ErrorHandler
 	zerolog.ErrorHandler = func(error) {}
@@ -225,7 +239,12 @@ func runLog(c *Case, ch vsched.Chooser) (string, *vsched.Sched) {
 			vsched.GoNamed(fmt.Sprintf("logger%d", t), func() {
 				for i := 0; i < c.K; i++ {
 					func() {
-						defer func() { recover() }() // only the destination's own panic can arrive here
+						defer func() {
+							// the destination's own panic, or the one a Panic() event ends with
+							if r := recover(); r == panicMsg {
+								gotPanics++
+							}
+						}()
 						shapes[shapeOf(t, i)](ls, t, i)
 					}()
 				}
@@ -246,6 +265,9 @@ func runLog(c *Case, ch vsched.Chooser) (string, *vsched.Sched) {
 	})
 	if s.Deadlock || s.StepLimit {
 		return fmt.Sprintf("logging threads did not finish (deadlock=%v, step bound=%v)", s.Deadlock, s.StepLimit), s
+	}
+	if gotPanics != wantPanics && c.PanicAt == 0 {
+		return fmt.Sprintf("%d Panic() events were logged, %d of the calls panicked", wantPanics, gotPanics), s
 	}
 	for k, w := range ws {
 		if w.mutated {
